@@ -11,7 +11,8 @@
          top-up of the last output, the three fee policies)
      add_inputs_from_and_change                                935-1007   (the selection itself is an oracle answer:
          an arbitrary extension of the input set; C08 models add_inputs_from)
-     validate_fee, build (size guard), build_tx                1627-1641, 2369-2379, 2566-2583
+     validate_fee, build (size guard), build_tx                1679-1709, 2369-2379, 2566-2583 (line numbers of /repo 6801f12)
+     check_output_limits (re-check of the topped-up output)    1130-1142
      utils.rs get_input_shortage                               1075-1118
 
    SIZE AND FEE ARE OPAQUE.  Everything that depends on serialised sizes or on the fee arithmetic is an ORACLE
@@ -274,7 +275,10 @@ Section Change.
     | [] => lift Panic
     | last :: before =>
         letM amount := lift (value_checked_add (o_amount last) change_left) in
-        put (set_s_outputs (rev before ++ [mkOutput (o_addr last) amount (o_extra last)]) s)
+        let last' := mkOutput (o_addr last) amount (o_extra last) in
+        doM put (set_s_outputs (rev before ++ [last']) s) in
+        (* check_output_limits on the grown output (since /repo f11ae45): value size and minimum ADA again *)
+        output_admissible last'
     end.
 
   Definition asset_branch (fuel : nat) (addr extra : N) (input_total output_total : value) (fee : N) : M bool :=
@@ -406,8 +410,17 @@ Section Change.
     letM s := get in
     match get_fee_if_set s with
     | Some fee =>
-        letM mf := askF s in
-        if fee <? mf then lift Err else ret tt
+        (* a fee computed before set_fee / set_min_fee was called must still honour that request (since /repo 0fc161c) *)
+        let honoured :=
+          match s_fee_request s with
+          | FeeExactly e => fee =? e
+          | FeeNotLess nl => nl <=? fee
+          | FeeUnspecified => true
+          end in
+        if negb honoured then lift Err
+        else
+          letM mf := askF s in
+          if fee <? mf then lift Err else ret tt
     | None => lift Err
     end.
 
